@@ -244,6 +244,15 @@ def _work(prop, ob: Ob, known, do_twin):
             out['replay_text'] = text[:3000]
             if oc not in ('violation', 'error', 'hang'):
                 out['status'] = 'NOT_REPRODUCED'
+                # state leaked between paths of this worker (e.g. a mutable class attribute in the code under
+                # test) can make the first failing input non-reproducible: look for one that fails in a fresh
+                # interpreter before giving up
+                for w in spec.witnesses:
+                    oc2, text2 = replay_subprocess(prop, ob.family, ob.params, w)
+                    if oc2 in ('violation', 'error', 'hang'):
+                        out.update(status='REFUTED', cex=to_jsonable(w), replay=oc2, replay_text=text2[:3000],
+                                   message='[witness, fresh interpreter] ' + text2[:600], stage='fresh-witness')
+                        break
 
     # ---- reachability twin
     if do_twin and out['status'] == 'CONFIRMED':
